@@ -32,6 +32,10 @@ def cases_for(ctx, t, depth, rng):
             for style in ("absolute", "relative"):
                 cs.append({"op": "merge", "tree": t, "depth": depth, "d": d, "levels": levels, "style": style, "fn": rng.choice(["sum", "max"]),
                            "via": rng.choice(["tensor", "fiber"])})
+    for d in range(depth):
+        # (a split below the root leaves 'ghost' sub-fibers unsplit - known findings F-C08-ghost-unsplit / F-C09-ghost-*: not repeated here)
+        if rng.random() < 0.5 and not (d > 0 and classify_tree(t) == "ghost"):
+            cs.append({"op": "splitswizzle", "tree": t, "depth": depth, "d": d, "step": rng.choice([1, 2, 3]), "via": "tensor"})
     if depth >= 3:
         # a swap in which one of the two ranks already holds tuple coordinates (flattened before)
         for fd in range(depth - 1):
